@@ -168,6 +168,15 @@ class LoopMixin:
             return set(fields)
         return set(self.last_written)
 
+    def drop_linked_names(self, names, body, st, node):
+        """a local that is a LINK to a heap field (it aliases the field's container) is not a loop variable of its own: its
+        value lives in the heap (havocked there).  Re-binding it inside the loop would make the link depend on the iteration."""
+        rb = rebound_names(body)
+        for k_ in [k_ for k_ in st.ghost if isinstance(k_, tuple) and k_[0] == "link"]:
+            if k_[1] in rb:
+                raise Unsupported(f"the local '{k_[1]}' aliases a heap container and is re-bound inside the loop", node)
+            names.discard(k_[1])
+
     def drop_object_names(self, names, body, st, extra=()):
         """`obj[k] = v` / `obj.append(x)` on a local that holds an OBJECT reference does not rebind the local: the
         effect is a heap write (found by the discovery pass), the reference itself survives the loop."""
@@ -287,6 +296,7 @@ class LoopMixin:
         if isinstance(root, ast.Attribute) and root.attr in fields:
             raise Unsupported(f"loop iterates field '{root.attr}' while mutating it", node)
         self.drop_object_names(names, node.body, st, tn)
+        self.drop_linked_names(names, node.body, st, node)
         ix = spec.index or f"_ghost_i{node.lineno}"
         dn = spec.done or f"_ghost_done{node.lineno}"
         for g in (spec.index, spec.done, spec.seq):
@@ -432,6 +442,7 @@ class LoopMixin:
         names |= cn
         fields |= cf
         self.drop_object_names(names, node.body, st)
+        self.drop_linked_names(names, node.body, st, node)
         for nm, src in self.inv_items(spec):
             self.oblige(st, self.clause(src, st), "inv.init", f"{nm}@L{node.lineno}", node, info={"clause": src})
         res = []
